@@ -15,7 +15,7 @@ structure CInv (c : Cfg) (s : St) (free : List Seg) (lives : List Ext) : Prop wh
   /-- guard for the unchecked addition inside `align_offset` (see DESIGN.md, C04) -/
   capGuard : s.cap + 8192 ≤ TWO32
   minSegLt : s.minSeg < TWO32
-  retriesOK : c.sync = true → 1 ≤ c.retries ∧ c.retries ≤ 255
+  retriesOK : c.sync = true → c.retries ≤ 255
 
 /-- bytes inside every extent of `lives` are the same in `s'` as in `s` -/
 def LiveIntact (s s' : St) (lives : List Ext) : Prop :=
